@@ -680,6 +680,38 @@ func c11(c *core.Ctx) {
 	if c.Rule("R8", "a codec that reports success has coded: in every encoding.Codec implementation of the package, each possibly-nil return of Unmarshal passes a decode call that takes the input bytes and the destination message, and the bytes Marshal returns on success come from an encode call that takes the message", 2) {
 		n := 0
 		for _, nt := range codecTypes(p) {
+			// "a JSON-encoded request is handled identically to its protobuf encoding": the codec takes every message
+			// the protobuf codec takes — messages generated before API v2 included — so the message argument is
+			// asserted to the v1 message interface (then adapted), never to one that demands ProtoReflect
+			for _, mn := range []string{"Marshal", "Unmarshal"} {
+				m := declaredMethod(p, nt, mn)
+				if m == nil {
+					continue
+				}
+				core.Instrs(m, func(in ssa.Instruction) {
+					ta, ok := in.(*ssa.TypeAssert)
+					if !ok {
+						return
+					}
+					isMsgParam := false
+					for _, pp := range m.Params[1:] {
+						if !isByteSlice(pp.Type()) && core.OriginIs(ta.X, func(o ssa.Value) bool { return o == ssa.Value(pp) }) {
+							isMsgParam = true
+						}
+					}
+					it, isI := ta.AssertedType.Underlying().(*types.Interface)
+					if !isMsgParam || !isI {
+						return
+					}
+					needsReflect := false
+					for i := 0; i < it.NumMethods(); i++ {
+						if it.Method(i).Name() == "ProtoReflect" {
+							needsReflect = true
+						}
+					}
+					c.Check(!needsReflect, core.FuncName(m)+":accepts-legacy-messages", ta.Pos(), "the message is asserted to the v1 proto.Message interface (every generated message has it) and adapted", "the message is asserted to an interface that requires ProtoReflect: messages generated before protobuf API v2 are refused by this codec although the protobuf codec accepts them, so the same request works as protobuf and fails as JSON")
+				})
+			}
 			if um := declaredMethod(p, nt, "Unmarshal"); um != nil && len(um.Params) == 3 {
 				n++
 				data, dst := derivedFrom(um.Params[1], false), derivedFrom(um.Params[2], false)
